@@ -13,39 +13,13 @@
   arbitrary strings (`sicd_compliance_diagonal`), segment sizes (`writer_blocks`), sample lists and byte strings of any length
   (`sicd_roundtrip`, `bytes_roundtrip`), amplitude tables (any strictly increasing table of 256 entries).
 -/
-import SarpyModel.Spec.Hdr
-import SarpyModel.Spec.Loops
-import SarpyModel.Bridge.Hdr
-import SarpyModel.Bridge.Loops
+import SarpyModel.Props.HdrCommon
+import SarpyModel.Bridge.HdrSicd
 import SarpyModel.Props.C08
 namespace Sarpy.Props.C02
-open Sarpy.Spec.Hdr Sarpy.Spec.Codec
+open Sarpy.Spec.Hdr Sarpy.Spec.Codec Sarpy.Props.Hdr
 
-/-! ### 0. the interpretation reads six fields only -/
-
-/-- the fields of an image subheader that decide how its samples are interpreted -/
-def enc (h : ImgHdr) : String × Nat × String × String × List Band × Bool := (h.pvtype, h.nbpp, h.ic, h.imode, h.bands, h.masked)
-
-theorem enc_fields {h h' : ImgHdr} (e : enc h = enc h') :
-    h.pvtype = h'.pvtype ∧ h.nbpp = h'.nbpp ∧ h.ic = h'.ic ∧ h.imode = h'.imode ∧ h.bands = h'.bands ∧ h.masked = h'.masked := by
-  simp only [enc, Prod.mk.injEq] at e
-  exact e
-
-theorem getDtype_congr {h h' : ImgHdr} (e : enc h = enc h') : getDtype h = getDtype h' := by
-  obtain ⟨e1, e2, _, _, e5, _⟩ := enc_fields e
-  simp only [getDtype, e1, e2, e5]
-
-theorem interp_congr {h h' : ImgHdr} (e : enc h = enc h') (ff) : interp h ff = interp h' ff := by
-  obtain ⟨_, _, e3, e4, e5, _⟩ := enc_fields e
-  simp only [interp, route, getDtype_congr e, e3, e4, e5]
-
-theorem nitfReaderCompliance_congr {h h' : ImgHdr} (e : enc h = enc h') (p : Bool) : nitfReaderCompliance h p = nitfReaderCompliance h' p := by
-  obtain ⟨_, e2, e3, _, _, _⟩ := enc_fields e
-  simp only [nitfReaderCompliance, e2, e3]
-
-theorem nitfWriterCompliance_congr {h h' : ImgHdr} (e : enc h = enc h') (p : Bool) : nitfWriterCompliance h p = nitfWriterCompliance h' p := by
-  obtain ⟨_, e2, e3, e4, _, e6⟩ := enc_fields e
-  simp only [nitfWriterCompliance, e2, e3, e4, e6]
+/-! ### 0. the interpretation reads six fields only (Props/HdrCommon.lean) -/
 
 theorem sicdReaderCompliance_congr {h h' : ImgHdr} (e : enc h = enc h') (p : Bool) (pt : String) :
     sicdReaderCompliance h p pt = sicdReaderCompliance h' p pt := by
@@ -61,6 +35,7 @@ theorem sicdWrite_congr {h h' : ImgHdr} (e : enc h = enc h') (pt : String) (a p 
 /-- the writer's header for a pixel type has the same encoding fields whatever the segment size and the identifier -/
 theorem sicdHdr_enc (p : SicdPixel) (rows cols : Nat) (iid1 : String) : enc (sicdHdr p rows cols iid1) = enc (sicdHdr p 0 0 "") := by
   cases p <;> rfl
+
 
 /-! ### 1. the whole table: what each pixel type MEANS, and that both sides arrive there -/
 
@@ -97,16 +72,16 @@ theorem sicd_reader_eq_writer (p : SicdPixel) (rows cols : Nat) (iid1 : String) 
 /-- the same for the code as regenerated from the source: header made by the regenerated writer chain, judged by the regenerated
     compliance chain, dtype by the regenerated `_get_dtype`, codec by the regenerated `SICDReader.get_format_function` -/
 theorem gen_sicd_reader_selects (p : SicdPixel) (rows cols : Nat) (iid1 : String) (pil : Bool) :
-    ∃ h, Gen.Hdr.sicd_writer_hdr p.name rows cols iid1 = .ok h ∧
-      Gen.Hdr.sicd_reader_compliance h pil p.name = .ok true ∧
+    ∃ h, Gen.HdrSicd.sicd_writer_hdr p.name rows cols iid1 = .ok h ∧
+      Gen.HdrSicd.sicd_reader_compliance h pil p.name = .ok true ∧
       ∃ d, Gen.Hdr.get_dtype h = .ok d ∧ d.1 = (intended p).raw ∧ d.2.1 = (intended p).fmtDtype ∧ d.2.2.1 = (intended p).fmtBands ∧
-        Gen.Hdr.sicd_reader_format_function d.1 d.2.2.2.1 d.2.2.2.2 2 p.name false = .ok (intended p).fmt ∧
-        Gen.Hdr.sicd_writer_format_function d.1 d.2.2.2.1 d.2.2.2.2 2 p.name false = .ok (intended p).fmt := by
+        Gen.HdrSicd.sicd_reader_format_function d.1 d.2.2.2.1 d.2.2.2.2 2 p.name false = .ok (intended p).fmt ∧
+        Gen.HdrSicd.sicd_writer_format_function d.1 d.2.2.2.1 d.2.2.2.2 2 p.name false = .ok (intended p).fmt := by
   refine ⟨sicdHdr p rows cols iid1, ?_, ?_, ?_⟩
-  · rw [Bridge.Hdr.gen_sicd_writer_hdr]; cases p <;> rfl
-  · rw [Bridge.Hdr.gen_sicd_reader_compliance, sicdReaderCompliance_congr (sicdHdr_enc p rows cols iid1)]
+  · rw [Bridge.HdrSicd.gen_sicd_writer_hdr]; cases p <;> rfl
+  · rw [Bridge.HdrSicd.gen_sicd_reader_compliance, sicdReaderCompliance_congr (sicdHdr_enc p rows cols iid1)]
     cases p <;> cases pil <;> decide
-  · simp only [Bridge.Hdr.gen_get_dtype, Bridge.Hdr.gen_sicd_reader_format_function, Bridge.Hdr.gen_sicd_writer_format_function,
+  · simp only [Bridge.Hdr.gen_get_dtype, Bridge.HdrSicd.gen_sicd_reader_format_function, Bridge.HdrSicd.gen_sicd_writer_format_function,
       getDtype_congr (sicdHdr_enc p rows cols iid1)]
     cases p
     · exact ⟨(some f4, .complex64, 1, some "IQ", none), by decide, by decide, by decide, by decide, by decide, by decide⟩
@@ -188,187 +163,25 @@ theorem sicd_mislabelled_skipped (p q : SicdPixel) (hpq : p ≠ q) (rows cols : 
     sicdRead q.name amp pil (sicdHdr p rows cols iid1) = .skipped := by
   simp [sicdRead, sicd_compliance_cross, hpq]
 
-/-! ### 2'. the complex order for band lists of ANY length -/
-
-/-- every consecutive pair of labels concatenates to `order`; an odd leftover is not a pair -/
-def pairsAll (order : String) : List String → Bool
-  | [] => true
-  | [_] => false
-  | a :: b :: rest => (a ++ b == order) && pairsAll order rest
-
-theorem pyRange_two_nil (a : Nat) : pyRange a a 2 = [] := by
-  simp [pyRange]
-
-theorem pyRange_two_step (a m : Nat) : pyRange a (a + (m + 2)) 2 = a :: pyRange (a + 2) (a + (m + 2)) 2 := by
-  unfold pyRange
-  have h1 : (a + (m + 2) - a + (2 - 1)) / 2 = (a + (m + 2) - (a + 2) + (2 - 1)) / 2 + 1 := by omega
-  rw [h1, List.range_succ_eq_map, List.map_cons, List.map_map]
-  congr 1
-  apply List.map_congr_left
-  intro k _
-  simp only [Function.comp, Nat.succ_eq_add_one]
-  omega
-
-theorem pyIdx_append_left {α : Type} (pre : List α) (x : α) (rest : List α) : pyIdx (pre ++ x :: rest) pre.length = .ok x := by
-  simp [pyIdx]
-
-theorem pyIdx_append_left1 {α : Type} (pre : List α) (x y : α) (rest : List α) : pyIdx (pre ++ x :: y :: rest) (pre.length + 1) = .ok y := by
-  have : pre ++ x :: y :: rest = (pre ++ [x]) ++ y :: rest := by simp
-  rw [this]
-  have h2 := pyIdx_append_left (pre ++ [x]) y rest
-  simpa using h2
-
-/-- the search loop of `get_complex_order` over the pairs after a prefix: it finds a differing pair iff not all pairs agree -/
-theorem anyM_pairs (order : String) : ∀ (rest pre : List Band), rest.length % 2 = 0 →
-    anyM (pairDiffers (pre ++ rest) order) (pyRange pre.length (pre.length + rest.length) 2) =
-      .ok (!pairsAll order (rest.map Band.isubcat))
-  | [], pre, _ => by simp [pyRange_two_nil, anyM, pairsAll]
-  | [_], _, h => by simp at h
-  | x :: y :: rest, pre, h => by
-    have hr : rest.length % 2 = 0 := by simp only [List.length_cons] at h; omega
-    have hlen : pre.length + (x :: y :: rest).length = pre.length + (rest.length + 2) := by simp
-    rw [hlen, pyRange_two_step]
-    have ih := anyM_pairs order rest (pre ++ [x, y]) hr
-    have e1 : pre ++ [x, y] ++ rest = pre ++ x :: y :: rest := by simp
-    have e2 : (pre ++ [x, y]).length = pre.length + 2 := by simp
-    rw [e1, e2] at ih
-    have e3 : pre.length + 2 + rest.length = pre.length + (rest.length + 2) := by omega
-    rw [e3] at ih
-    have hh : pairDiffers (pre ++ x :: y :: rest) order pre.length = .ok (decide (order ≠ x.isubcat ++ y.isubcat)) := by
-      simp only [pairDiffers, pairAt, pyIdx_append_left, pyIdx_append_left1, Except.map]
-    simp only [anyM, hh]
-    by_cases hxy : x.isubcat ++ y.isubcat = order
-    · have : decide (order ≠ x.isubcat ++ y.isubcat) = false := by simp [hxy]
-      simp only [this]
-      rw [ih]
-      simp [pairsAll, hxy]
-    · have : decide (order ≠ x.isubcat ++ y.isubcat) = true := by
-        simp only [ne_eq, decide_eq_true_eq]; exact fun h => hxy h.symm
-      simp only [this]
-      simp [pairsAll, hxy]
-
-theorem pairsAll_even (order : String) : ∀ (l : List String), pairsAll order l = true → l.length % 2 = 0
-  | [], _ => rfl
-  | [_], h => by simp [pairsAll] at h
-  | _ :: _ :: rest, h => by
-    simp only [pairsAll, Bool.and_eq_true] at h
-    have := pairsAll_even order rest h.2
-    simp only [List.length_cons]; omega
-
-/-- **`get_complex_order` for band lists of any length**: an order is announced exactly when the first pair's labels concatenate
-    to one of the four orders, every pair (the last included) concatenates to the same, and the PVTYPE fits; an odd or
-    mixed list announces none; a pixel value type that contradicts the labels is refused -/
-theorem complexOrder_iff (pv : String) (a b : Band) (rest : List Band) :
-    complexOrder pv (a :: b :: rest) =
-      (if (a.isubcat ++ b.isubcat) ∈ orders ∧ pairsAll (a.isubcat ++ b.isubcat) (rest.map Band.isubcat) = true then
-        (if pvtypeFits (a.isubcat ++ b.isubcat) pv then .ok (some (a.isubcat ++ b.isubcat)) else .error "ValueError")
-       else .ok none) := by
-  unfold complexOrder
-  by_cases hlen : (a :: b :: rest).length % 2 ≠ 0
-  · rw [if_pos hlen]
-    have : pairsAll (a.isubcat ++ b.isubcat) (rest.map Band.isubcat) ≠ true := by
-      intro hp
-      have := pairsAll_even _ _ hp
-      simp only [List.length_map] at this
-      simp only [List.length_cons] at hlen
-      omega
-    simp [this]
-  · rw [if_neg hlen]
-    have hr : rest.length % 2 = 0 := by simp only [List.length_cons] at hlen; omega
-    have h0 : pairAt (a :: b :: rest) 0 = .ok (a.isubcat ++ b.isubcat) := rfl
-    simp only [h0]
-    by_cases ho : (a.isubcat ++ b.isubcat) ∈ orders
-    · simp only [ho, not_true_eq_false, if_false, true_and]
-      have hl := anyM_pairs (a.isubcat ++ b.isubcat) rest [a, b] hr
-      have e1 : ([a, b] : List Band) ++ rest = a :: b :: rest := rfl
-      have e2 : ([a, b] : List Band).length = 2 := rfl
-      rw [e1, e2] at hl
-      have e3 : (a :: b :: rest).length = 2 + rest.length := by simp only [List.length_cons]; omega
-      rw [e3, hl]
-      cases pairsAll (a.isubcat ++ b.isubcat) (rest.map Band.isubcat) <;> simp
-    · simp [ho]
-
-/-- no band pair at all: one band announces nothing; zero bands make the lookup of band 0 fail -/
-theorem complexOrder_short (pv : String) (a : Band) : complexOrder pv [a] = .ok none ∧ complexOrder pv [] = .error "IndexError" := by
-  constructor <;> rfl
-
-example : complexOrder "R" [band "I" "", band "Q" "", band "I" "", band "Q" ""] = .ok (some "IQ") := by decide
-example : complexOrder "R" [band "I" "", band "Q" "", band "Q" "", band "I" ""] = .ok none := by decide
-example : complexOrder "INT" [band "I" "", band "Q" ""] = .error "ValueError" := by decide
-/-- the labels are concatenated before they are compared: an empty label next to a two-letter one is read as that order -/
-example : complexOrder "R" [band "" "", band "IQ" ""] = .ok (some "IQ") := by decide
-
-/-! ### 5. NPPBH / NPPBV: one block covering the segment -/
-
-open Sarpy.Spec.L in
-/-- **(5)** for every segment of at least one row and one column: the writer's block fields (`0` beyond 8192, NBPR = NBPC = 1)
-    pass the reader's two validity checks and its block-bound construction yields exactly one block, the whole segment -/
-theorem writer_blocks (rows cols : Nat) (hr : 1 ≤ rows) (hc : 1 ≤ cols) :
-    blockBounds rows cols (nppb rows) (nppb cols) 1 1 = some [((0 : Int), (rows : Int), (0 : Int), (cols : Int))] := by
-  unfold blockBounds blocksFit Sarpy.Spec.K2.effBlock nppb
-  have h1 : (1 : Int).toNat = 1 := rfl
-  by_cases h8 : rows > 8192 <;> by_cases h9 : cols > 8192 <;>
-    simp only [h8, h9, if_true, if_false, Nat.cast_zero, h1, blockGrid, blockRow, List.range_one, List.flatMap_cons, List.flatMap_nil,
-      List.map_cons, List.map_nil, List.append_nil, Nat.cast_ofNat] <;>
-    (rw [if_pos (by constructor <;> constructor <;> (try split_ifs) <;> omega)]; simp <;> split_ifs <;> omega)
-
-open Sarpy.Spec.L in
-/-- the same for `_construct_block_bounds` as regenerated from the source (Bridge/Loops.lean) -/
-theorem gen_writer_blocks (rows cols : Nat) (hr : 1 ≤ rows) (hc : 1 ≤ cols) :
-    Gen.L.construct_block_bounds rows cols (nppb rows) (nppb cols) 1 1 = .ok [((0 : Int), (rows : Int), (0 : Int), (cols : Int))] := by
-  rw [Bridge.L.gen_construct_block_bounds, writer_blocks rows cols hr hc]
-
 /-- the header fields the theorem speaks about are the ones the writer sets -/
 theorem sicdHdr_blocks (p : SicdPixel) (rows cols : Nat) (iid1 : String) :
     let h := sicdHdr p rows cols iid1
     h.nrows = rows ∧ h.ncols = cols ∧ h.nppbv = nppb rows ∧ h.nppbh = nppb cols ∧ h.nbpr = 1 ∧ h.nbpc = 1 := by
   cases p <;> exact ⟨rfl, rfl, rfl, rfl, rfl, rfl⟩
 
-example : nppb 8192 = 8192 ∧ nppb 8193 = 0 := by decide
-
-/-! ### 6. bytes: the raw dtype's byte order -/
-
-/-- the `size` bytes of `n`, most significant first when `big` -/
-def toBytesBE : Nat → Nat → List Nat
-  | 0, _ => []
-  | s + 1, n => (n / 256 ^ s) % 256 :: toBytesBE s n
-
-def ofBytesBE (bs : List Nat) : Nat := bs.foldl (fun acc b => acc * 256 + b) 0
-
-def toBytes (big : Bool) (size n : Nat) : List Nat := if big then toBytesBE size n else (toBytesBE size n).reverse
-def ofBytes (big : Bool) (bs : List Nat) : Nat := if big then ofBytesBE bs else ofBytesBE bs.reverse
-
-theorem ofBytesBE_aux (bs : List Nat) (acc : Nat) : bs.foldl (fun acc b => acc * 256 + b) acc = acc * 256 ^ bs.length + ofBytesBE bs := by
-  induction bs generalizing acc with
-  | nil => simp [ofBytesBE]
-  | cons b rest ih =>
-    simp only [List.foldl_cons, List.length_cons, ofBytesBE]
-    rw [ih, ih (0 * 256 + b)]
-    ring
-
-theorem toBytesBE_length (s n : Nat) : (toBytesBE s n).length = s := by
-  induction s with
-  | zero => rfl
-  | succ s ih => simp [toBytesBE, ih]
-
-theorem ofBytesBE_toBytesBE (s n : Nat) : ofBytesBE (toBytesBE s n) = n % 256 ^ s := by
-  induction s with
-  | zero => simp [toBytesBE, ofBytesBE, Nat.mod_one]
-  | succ s ih =>
-    simp only [toBytesBE, ofBytesBE, List.foldl_cons]
-    rw [ofBytesBE_aux, toBytesBE_length, ih]
-    have h1 : n % 256 ^ (s + 1) = (n / 256 ^ s % 256) * 256 ^ s + n % 256 ^ s := by
-      rw [Nat.pow_succ, Nat.mod_mul, Nat.mul_comm]
-      omega
-    rw [h1]; ring
-
-/-- **a sample written with a raw dtype and read with the same dtype is unchanged** (any item size, either byte order) -/
-theorem bytes_roundtrip (big : Bool) (size n : Nat) (hn : n < 256 ^ size) : ofBytes big (toBytes big size n) = n := by
-  cases big <;> simp [ofBytes, toBytes, ofBytesBE_toBytesBE, Nat.mod_eq_of_lt hn]
-
-/-- the byte order is not decoration: a two-byte sample read with the other order is another number -/
-example : ofBytes false (toBytes true 2 1) = 256 := by decide
-example : ofBytes true (toBytes true 2 0x1234) = 0x1234 ∧ toBytes true 2 0x1234 = [0x12, 0x34] := by decide
+open Sarpy.Spec.L in
+/-- **(5)** the block fields of every SICD segment header describe one block covering the segment: the reader's two validity checks
+    pass and its block-bound construction returns the single block `[0, rows) x [0, cols)` - for the reference definition and for
+    `_construct_block_bounds` as regenerated from the source -/
+theorem sicd_writer_blocks (p : SicdPixel) (rows cols : Nat) (iid1 : String) (hr : 1 ≤ rows) (hc : 1 ≤ cols) :
+    blockBounds (sicdHdr p rows cols iid1).nrows (sicdHdr p rows cols iid1).ncols (sicdHdr p rows cols iid1).nppbv (sicdHdr p rows cols iid1).nppbh
+        (sicdHdr p rows cols iid1).nbpr (sicdHdr p rows cols iid1).nbpc = some [((0 : Int), (rows : Int), (0 : Int), (cols : Int))] ∧
+    Gen.L.construct_block_bounds (sicdHdr p rows cols iid1).nrows (sicdHdr p rows cols iid1).ncols (sicdHdr p rows cols iid1).nppbv
+        (sicdHdr p rows cols iid1).nppbh (sicdHdr p rows cols iid1).nbpr (sicdHdr p rows cols iid1).nbpc =
+      .ok [((0 : Int), (rows : Int), (0 : Int), (cols : Int))] := by
+  obtain ⟨e1, e2, e3, e4, e5, e6⟩ := sicdHdr_blocks p rows cols iid1
+  rw [e1, e2, e3, e4, e5, e6]
+  exact ⟨writer_blocks rows cols hr hc, gen_writer_blocks rows cols hr hc⟩
 
 /-! ### 7. composition with the pixel codecs of C08: decode_reader (hdr_writer pt) (encode_writer pt x) = x -/
 
@@ -420,11 +233,6 @@ def Representable (p : SicdPixel) (T : List ℝ) (z : ℝ × ℝ) : Prop :=
   | .RE32F_IM32F => True
   | .RE16I_IM16I => ∃ i q : ℤ, z = ((i : ℝ), (q : ℝ)) ∧ -(2 : ℤ) ^ 15 ≤ i ∧ i < 2 ^ 15 ∧ -(2 : ℤ) ^ 15 ≤ q ∧ q < 2 ^ 15
   | .AMP8I_PHS8I => ∃ m ph : ℕ, m < 256 ∧ ph < 256 ∧ 0 < T.getD m 0 ∧ z = decodeMP realOps 8 (T.getD m 0) (ph : ℝ)
-
-theorem map_roundtrip {α β : Type} (enc : α → β) (dec : β → α) (l : List α) (h : ∀ x ∈ l, dec (enc x) = x) : (l.map enc).map dec = l := by
-  rw [List.map_map]
-  conv_rhs => rw [← List.map_id l]
-  exact List.map_congr_left (fun x hx => by simp [h x hx])
 
 theorem amp_point (T : List ℝ) (hT : T.Pairwise (· < ·)) (hl : T.length = 256) (m ph : ℕ) (hm : m < 256) (hp : ph < 256) (hpos : 0 < T.getD m 0) :
     let z := decodeMP realOps 8 (T.getD m 0) (ph : ℝ)
